@@ -245,6 +245,9 @@ def plan(tier, seed):
     else:
         worlds[seed % 2] = (worlds[seed % 2][0], ef, 4)
         worlds.append(slow)
+        # custom buffer shorter than the channel's own fall time (but longer than the EOM's)
+        worlds.append((corner("unit8", prefix=[("declare", "g", "rydberg_global")], name="eom-custom-buffer-below-channel-fall",
+                              eom=dict(custom_buffer_time=40)), ef, 3))
         worlds.append((corner("real", prefix=[("declare", "g", "rydberg_global")], name="real-eom-max-duration-below-waits", max_dur=100), ef, 3))
     return worlds
 
